@@ -213,8 +213,10 @@ static std::string build_real() {
       for (int r = 0; r < S.nr; r++) { const Hook *hg = h++, *ha = h++; int gk = S.r[r].guard; uint8_t *ctr = &G.flip_real[k][s][r];
         StateMachine::GuardFunc gf; if (gk) gf = [hg, gk, ctr](Event e) { real_hook(hg, e); bool v = guard_value(gk, *ctr); G.tr += v ? "=1 " : "=0 "; return v; };
         ok &= m->addRoute(s, (int)S.r[r].ev, (int)S.r[r].to, gf, [ha](Event e) { real_hook(ha, e); G.tr += ' '; }); }
-      if (S.h_ev) { const Hook *hh = h++; int ret = S.h_ret; ok &= m->addEvent(s, (int)S.h_ev, [hh, ret](Event e) { real_hook(hh, e); G.tr += ' '; return ret; }); }
-      if (S.h_any != -2) { const Hook *hh = h++; int ret = S.h_any; ok &= m->addEvent(s, 0, [hh, ret](Event e) { real_hook(hh, e); G.tr += ' '; return ret; }); }
+      // lane C16_BAD_HANDLER: a handler that would decline (-1) returns 9 instead, an id that names no state of the machine
+      static const bool bad_handler = getenv("C16_BAD_HANDLER") != nullptr;
+      if (S.h_ev) { const Hook *hh = h++; int ret = (bad_handler && S.h_ret == -1) ? 9 : S.h_ret; ok &= m->addEvent(s, (int)S.h_ev, [hh, ret](Event e) { real_hook(hh, e); G.tr += ' '; return ret; }); }
+      if (S.h_any != -2) { const Hook *hh = h++; int ret = (bad_handler && S.h_any == -1) ? 9 : S.h_any; ok &= m->addEvent(s, 0, [hh, ret](Event e) { real_hook(hh, e); G.tr += ' '; return ret; }); }
       if (G.nodes[k].sub[s] >= 0) ok &= m->setSubStateMachine(s, G.sm[G.nodes[k].sub[s]]); }
     if (d.term_def && term_late) ok &= m->newState(0, [he0](Event e) { real_hook(he0, e); G.tr += ' '; }, [hx0](Event e) { real_hook(hx0, e); G.tr += ' '; });
     int node = (int)k;
@@ -271,6 +273,8 @@ struct Ref {
     const StateD &S = def(k).st[c - 1]; int target = -1, ri = -1;
     if (S.h_ev == e) { act(k, 'h', c, e, e); target = S.h_ret; }                      // a handler may pick the target (R1)
     else if (S.h_any != -2) { act(k, 'h', c, 0, e); target = S.h_any; }
+    static const bool bad_handler = getenv("C16_BAD_HANDLER") != nullptr;
+    if (bad_handler && target == -1 && (S.h_ev == e || S.h_any != -2)) return false;   // the handler named a state that does not exist: the event is dropped, nothing changes, the machine stays usable
     if (target == -1) {                                     // first route in registration order whose event matches and whose guard holds
       for (int i = 0; i < S.nr && ri < 0; i++) {
         if (S.r[i].ev != 0 && S.r[i].ev != e) continue;
